@@ -18,7 +18,7 @@ func refFields(f []*node, ps []*pop, out *[]field) {
 		switch t.Kind {
 		case 'k':
 			if ps[i].Set {
-				*out = append(*out, field{t.Tag, ps[i].Val})
+				*out = append(*out, field{t.Tag, wireText(ps[i].Val)})
 			}
 		case 'c':
 			refFields(t.Kids, ps[i].Kids, out)
